@@ -18,7 +18,11 @@ CONSTANTS SIZES,      \* blob sizes offered, in quarter-MiB units
           LIMITS,     \* values for both limits, in MB (0 = unlimited for content; 0 = nothing allowed for network)
           MAXPASS,    \* cleanup passes per behaviour
           ADDS,       \* blobs that may be added between passes
-          Q           \* size units per MiB (4 in the model: quarter MiB; 1048576 when validating real traces in bytes)
+          Q,          \* size units per MiB (4 in the model: quarter MiB; 1048576 when validating real traces in bytes)
+          PARTIAL,    \* TRUE: the initial population may contain blobs of partly downloaded streams (a row with the
+                      \* announced length and status pending, nothing on disk: here = FALSE from the start)
+          PHANTOM     \* FALSE (the code): only stored (finished) blobs are candidates of the content pass;
+                      \* TRUE: pending rows are candidates too and are credited with their announced length (negative control)
 CLS == {"own", "content", "nofile", "network"}
 
 VARIABLES blobs, sdhere, climit, nlimit, passes, adds, phase,
@@ -62,7 +66,7 @@ ContentPass(here, sdh) ==
   LET used == ContentMB(here)
       over == used > climit
   IN IF climit = 0 \/ ~over THEN [del |-> {}, sd |-> {}]
-     ELSE LET r == Take(AscSeq({i \in Cls("content") : here[i]}), used - climit, {})
+     ELSE LET r == Take(AscSeq({i \in Cls("content") : here[i] \/ PHANTOM}), used - climit, {})
           IN IF r.left = 0 THEN [del |-> r.taken, sd |-> {}]
              \* content blobs did not cover the excess: the scan continues over the sd blobs (0 MB each), so all go
              ELSE [del |-> r.taken, sd |-> {i \in Cls("content") : sdh[i]}]
@@ -72,7 +76,8 @@ NetworkPass(here) ==
      ELSE Take(BigFirst({i \in Cls("network") : here[i]}), used - nlimit, {}).taken
 
 Blob == [cls : CLS, size : SIZES, here : {TRUE}]
-Init == /\ \E n \in 0..MAXB : blobs \in [1..n -> Blob]
+InitBlob == Blob \cup (IF PARTIAL THEN [cls : {"content"}, size : SIZES, here : {FALSE}] ELSE {})
+Init == /\ \E n \in 0..MAXB : blobs \in [1..n -> InitBlob]
         /\ sdhere = [i \in DOMAIN blobs |-> TRUE]
         /\ climit \in LIMITS /\ nlimit \in LIMITS
         /\ passes = 0 /\ adds = 0 /\ phase = "init"
